@@ -383,3 +383,92 @@ def isCustomInstance (row : OptRow) : Bool :=
   | _, _, _ => false
 
 end Replicat.Options
+
+/-! ## class hierarchies of backends: WHICH environment variable an option of a backend class is read from
+
+A backend class need not derive from `Backend` directly: the shipped `S3` derives from `S3Compatible`, and a custom backend
+found through the namespace package may derive from `Local`, `S3Compatible`, `B2` or from another custom backend, adding or
+overriding keyword-only options.  `config.backend_env_option(cls, option)` is `f'{cls.short_name}_{option}'.upper()`, and
+`cls.short_name` is what `Backend.__init_subclass__` stored when THAT class was created: the class keyword `short_name=`,
+or else the fallback `Gen.optShortNameRule` (read from the AST).  The documented name is the class's own —
+`<SHORT NAME>_<OPTION>`, `<CLASS NAME>_<OPTION>` without the keyword (README, "Custom backends") — never a parent's. -/
+namespace Replicat.Options
+open Replicat.Gen
+
+/-- a backend class declaration, as far as its short name goes -/
+structure BackendClass where
+  /-- `cls.__name__` -/
+  name : String
+  /-- `class X(Base, short_name='…')` -/
+  kwShort : Option String
+  /-- a plain `short_name = '…'` in the class body -/
+  attrShort : Option String
+  deriving DecidableEq, Repr, Inhabited
+
+/-- `cls.short_name` once `Backend.__init_subclass__` has run for every class of the chain; the chain is the class followed
+by its base classes up to (not including) `Backend` (single inheritance).  `none` = outside the model (unrecognised rule,
+empty chain).  `.inheritedAttr`: `getattr(cls, 'short_name', …)` finds the class's own attribute first, and otherwise the one
+`__init_subclass__` stored on the nearest base class. -/
+def shortNameOf (rule : OptShortNameRule) : List BackendClass → Option String
+  | [] => none
+  | c :: parents =>
+    match c.kwShort with
+    | some k => some k
+    | none =>
+      match rule with
+      | .className => some c.name
+      | .ownAttr => (match c.attrShort with | some a => some a | none => some c.name)
+      | .inheritedAttr =>
+        (match c.attrShort with
+         | some a => some a
+         | none => match shortNameOf rule parents with
+           | some p => some p
+           | none => some c.name)
+      | .other => none
+
+/-- the fallbacks under which a class's short name depends on its own declaration only -/
+def ruleIsOwn : OptShortNameRule → Bool
+  | .className => true
+  | .ownAttr => true
+  | _ => false
+
+/-- `str.upper()` on the ASCII letters (names of classes and options are identifiers; the harness generates ASCII ones) -/
+def upperAscii (s : String) : String := String.ofList (s.toList.map Char.toUpper)
+
+/-- `f'{short}_{option}'.upper()` -/
+def backendEnvName (short opt : String) : String := upperAscii (short ++ "_" ++ opt)
+
+/-- `name.replace('_', '-')` -/
+def hyphenated (opt : String) : String := String.ofList (opt.toList.map (fun ch => if ch == '_' then '-' else ch))
+
+/-- `config.backend_env_option(cls, opt)` for the class at the head of the chain -/
+def backendEnvVar (rule : OptShortNameRule) (chain : List BackendClass) (opt : String) : Option String :=
+  if optBackendEnvJoinRecognised then (shortNameOf rule chain).map (fun s => backendEnvName s opt) else none
+
+/-- the names a class declares itself -/
+def ownNames (c : BackendClass) : List String := c.kwShort.toList ++ c.attrShort.toList ++ [c.name]
+
+/-- the documented short name: the class keyword, else the class name -/
+def documentedShortName (c : BackendClass) : String :=
+  match c.kwShort with
+  | some k => k
+  | none => c.name
+
+/-- the option row of ONE keyword-only parameter `dest` of the class at the head of the chain: the instance of the schema
+`customBackendRow` whose flag / file key are derived from the parameter name and whose environment variable is derived from
+the class -/
+def classBackendRow (rule : OptShortNameRule) (chain : List BackendClass) (owner dest : String) (builtinKind : Nat) : Option OptRow :=
+  (backendEnvVar rule chain dest).map (fun e =>
+    customBackendRow owner dest ("--" ++ hyphenated dest) e (hyphenated dest) builtinKind)
+
+def classOfDecl (d : String × Option String × Option String) : BackendClass :=
+  { name := d.1, kwShort := d.2.1, attrShort := d.2.2 }
+
+/-- every backend-specific row of the generated table whose owner is a shipped backend carries the environment variable the
+model computes from the class declarations of that backend (`Gen.optShippedBackendClasses`, from the ASTs) -/
+def shippedEnvNamesAgree (rule : OptShortNameRule) : Bool :=
+  optShippedBackendClasses.all (fun mc =>
+    optRows.all (fun row => row.scope != 2 || row.owner != mc.1 ||
+      row.env.map (·.1) == backendEnvVar rule (mc.2.map classOfDecl) row.dest))
+
+end Replicat.Options
